@@ -49,6 +49,7 @@ type program struct {
 	used   map[int]bool           // hook tokens in use
 	next   int
 	direct bool // the transaction calls the precompile itself (root = one pre node, sender = env.direct)
+	create map[int]bool // call nodes that are CREATE instructions: Body = init code, To = address of the new contract
 	body   func(depth int, ctx common.Address, static bool) []*evmx.Node
 	depth  int // depth of the frame being generated (for genPre)
 }
